@@ -16,7 +16,7 @@ Record kview := mkView {
   vClosed : bool;
   vDrop : bool; vHeld : bool; vArmed : bool;
   vFinc : nat; vRelc : nat; vFar : bool;
-  vWF : bool; vWR : bool
+  vWF : bool; vWR : bool; vLost : bool
 }.
 
 Definition look (w : world) (k : N) := lookup k (regList (pl w)).
@@ -27,7 +27,7 @@ Definition view (w : world) (k : N) : kview :=
   mkView (look w k) (nF w k) (nR w k) (closed (pl w))
          (mem k (dropped w)) (mem k (held w)) (mem k (armed w))
          (finc k (tr w)) (relc k (tr w)) (finAfterRel k (epoch k (tr w)))
-         (wantsF k (tr w)) (wantsR k (tr w)).
+         (wantsF k (tr w)) (wantsR k (tr w)) (mem k (lost w)).
 
 Definition deadV (v : kview) : Prop :=
   vDrop v = true /\ vHeld v = false /\ vArmed v = false /\ vLook v = None /\ vNF v = 0%nat.
@@ -49,12 +49,9 @@ Record KInvV (v : kview) : Prop := {
   k_rd : vRelc v = 1%nat -> vClosed v = true \/ (deadV v /\ vNR v = 0%nat);
   k_far : vFar v = false;
   k_cl : vClosed v = true -> vLook v = None /\ vNF v = 0%nat /\ vNR v = 0%nat;
-  k_wR : vWR v = true -> vRelc v = 1%nat \/ (vClosed v = false /\ (owesRV v \/ vNR v = 1%nat))
+  k_wR : vWR v = true -> vRelc v = 1%nat \/ (vClosed v = false /\ (owesRV v \/ vNR v = 1%nat));
+  k_wF : vWF v = true -> vFinc v = 1%nat \/ (vClosed v = false /\ (owesFV v \/ vNF v = 1%nat)) \/ vLost v = true
 }.
-
-(* liveness of finalisation; broken only by the two "extract all" calls *)
-Definition FInvV (v : kview) : Prop :=
-  vClosed v = false -> vWF v = true -> vFinc v = 1%nat \/ owesFV v \/ vNF v = 1%nat.
 
 Definition GInv (w : world) : Prop := NoDup (keys (regList (pl w))).
 Definition Inv (w : world) : Prop := GInv w /\ forall k, KInvV (view w k).
@@ -66,7 +63,7 @@ Ltac keq k0 k :=
 
 Lemma Inv0 : Inv world0.
 Proof.
-  split; [constructor|]. intros k. constructor; simpl; unfold deadV, owesRV; simpl; try lia; try discriminate; auto;
+  split; [constructor|]. intros k. constructor; simpl; unfold deadV, owesRV, owesFV; simpl; try lia; try discriminate; auto;
   intros; try discriminate; try lia.
 Qed.
 
@@ -101,20 +98,23 @@ Proof.
   assert (LK : look w k = lookup k r) by (unfold look, regList; rewrite Hr; reflexivity).
   keq k0 k.
   - (* the marked key *)
-    destruct K. unfold view in *. cbn [vLook vNF vNR vClosed vDrop vHeld vArmed vFinc vRelc vFar vWF vWR] in *.
-    unfold look, nF, nR in *. cbn [pl dropped held armed tr] in *.
+    destruct K. unfold view in *. cbn [vLook vNF vNR vClosed vDrop vHeld vArmed vFinc vRelc vFar vWF vWR vLost] in *.
+    unfold look, nF, nR in *. cbn [pl dropped held armed tr lost] in *.
     assert (NF0 : occ k (keys (pendF (pl w))) = 0%nat).
     { destruct (Nat.eq_dec (occ k (keys (pendF (pl w)))) 1) as [E1|E1]; [|lia].
       destruct (k_pF0 E1) as (D & Hh & _). rewrite D, Hh in EN. discriminate. }
     assert (NR0 : occ k (keys (pendR (pl w))) = 0%nat).
     { destruct (Nat.eq_dec (occ k (keys (pendR (pl w)))) 1) as [E1|E1]; [|lia].
       destruct (k_pR0 E1) as ((D & Hh & _) & _). cbn in D, Hh. rewrite D, Hh in EN. discriminate. }
-    constructor; cbn [vLook vNF vNR vClosed vDrop vHeld vArmed vFinc vRelc vFar vWF vWR];
+    constructor; cbn [vLook vNF vNR vClosed vDrop vHeld vArmed vFinc vRelc vFar vWF vWR vLost];
       rewrite ?HF, ?HR, ?HC, ?HL, ?N.eqb_refl, ?finc_marked, ?relc_marked, ?N.eqb_refl; try lia; try discriminate.
     + simpl. rewrite N.eqb_refl. reflexivity.
     + unfold wantsR. simpl. rewrite N.eqb_refl. intros WR. right. split; [reflexivity|]. left.
       destruct (fl =? 0) eqn:Z; [apply N.eqb_eq in Z; subst fl; discriminate|].
       eexists. split; [reflexivity|]. simpl. rewrite WR. reflexivity.
+    + unfold wantsF. simpl. rewrite N.eqb_refl. intros WF. right. left. split; [reflexivity|]. left.
+      destruct (fl =? 0) eqn:Z; [apply N.eqb_eq in Z; subst fl; discriminate|].
+      eexists. split; [reflexivity|]. simpl. rewrite WF. reflexivity.
   - (* another key *)
     assert (AR : mem k (match oCalls x with
                         | [(_, true)] => k0 :: armed w
@@ -125,9 +125,9 @@ Proof.
       - apply mem_rm_other. exact NE. }
     assert (V : view (mkWorld p' (dropped w) (held w)
                  (match oCalls x with | [(_, true)] => k0 :: armed w | [(_, false)] => rm k0 (armed w) | _ => armed w end)
-                 (Marked k0 fl :: tr w)) k = view w k).
-    { unfold view, look, nF, nR, wantsF, wantsR. cbn [pl dropped held armed tr].
-      rewrite HL, HF, HR, HC, AR, finc_marked, relc_marked, far_marked_other by exact NE.
+                 (rm k0 (lost w)) (Marked k0 fl :: tr w)) k = view w k).
+    { unfold view, look, nF, nR, wantsF, wantsR. cbn [pl dropped held armed tr lost].
+      rewrite HL, HF, HR, HC, AR, finc_marked, relc_marked, far_marked_other, mem_rm_other by exact NE.
       cbn [lastFlags]. rewrite (proj2 (N.eqb_neq _ _) NE).
       fold (look w k). rewrite <- LK. f_equal. unfold closed. rewrite Hr. reflexivity. }
     rewrite V. exact K.
@@ -140,28 +140,28 @@ Lemma KInvV_env v d h a :
   (vDrop v = true -> vHeld v = false -> d = true) ->
   (vHeld v = false -> h = false) ->
   (vDrop v = true -> vHeld v = false -> vArmed v = false -> a = false) ->
-  KInvV (mkView (vLook v) (vNF v) (vNR v) (vClosed v) d h a (vFinc v) (vRelc v) (vFar v) (vWF v) (vWR v)).
+  KInvV (mkView (vLook v) (vNF v) (vNR v) (vClosed v) d h a (vFinc v) (vRelc v) (vFar v) (vWF v) (vWR v) (vLost v)).
 Proof.
-  intros [A1 A2 A3 A4 A5 A6 A7 A8 A9 A10 A11 A12] Hd Hh Ha.
-  unfold deadV, owesRV in *.
-  constructor; unfold deadV, owesRV; cbn [vLook vNF vNR vClosed vDrop vHeld vArmed vFinc vRelc vFar vWF vWR]; auto.
+  intros [A1 A2 A3 A4 A5 A6 A7 A8 A9 A10 A11 A12 A13] Hd Hh Ha.
+  unfold deadV, owesRV, owesFV in *.
+  constructor; unfold deadV, owesRV, owesFV; cbn [vLook vNF vNR vClosed vDrop vHeld vArmed vFinc vRelc vFar vWF vWR vLost]; auto.
   - intros E. destruct (A2 E) as (D & H & A & R). repeat split; auto; tauto.
   - intros E. destruct (A6 E) as ((D & H & A & R) & R2). repeat split; auto; tauto.
   - intros E. destruct (A9 E) as [C|((D & H & A & R) & R2)]; [left; exact C|right]. repeat split; auto; tauto.
 Qed.
 
-Lemma view_env p d h a t k :
-  view (mkWorld p d h a t) k =
+Lemma view_env p d h a l t k :
+  view (mkWorld p d h a l t) k =
   mkView (lookup k (regList p)) (occ k (keys (pendF p))) (occ k (keys (pendR p))) (closed p)
          (mem k d) (mem k h) (mem k a) (finc k t) (relc k t) (finAfterRel k (epoch k t))
-         (wantsF k t) (wantsR k t).
+         (wantsF k t) (wantsR k t) (mem k l).
 Proof. reflexivity. Qed.
 
 Lemma Kenv w d h a k : KInvV (view w k) ->
   (mem k (dropped w) = true -> mem k (held w) = false -> mem k d = true) ->
   (mem k (held w) = false -> mem k h = false) ->
   (mem k (dropped w) = true -> mem k (held w) = false -> mem k (armed w) = false -> mem k a = false) ->
-  KInvV (view (mkWorld (pl w) d h a (tr w)) k).
+  KInvV (view (mkWorld (pl w) d h a (lost w) (tr w)) k).
 Proof. intros. apply (KInvV_env (view w k) (mem k d) (mem k h) (mem k a)); assumption. Qed.
 
 Lemma step_drop w w' k0 : Inv w -> wstep w (EDrop k0) = Some w' -> Inv w'.
@@ -205,8 +205,8 @@ Proof.
     apply Kenv; auto.
     intros _ _ A. keq k0 k; [apply mem_rm_same|rewrite mem_rm_other by exact NE; exact A]. }
   assert (Kc : eKey c = k0) by (eapply lookup_key; exact L).
-  pose proof (K k0) as K0. destruct K0 as [A1 A2 A3 A4 A5 A6 A7 A8 A9 A10 A11 A12].
-  unfold deadV, owesRV in *. cbn [view vLook vNF vNR vClosed vDrop vHeld vArmed vFinc vRelc vFar vWF vWR] in *.
+  pose proof (K k0) as K0. destruct K0 as [A1 A2 A3 A4 A5 A6 A7 A8 A9 A10 A11 A12 A13].
+  unfold deadV, owesRV, owesFV in *. cbn [view vLook vNF vNR vClosed vDrop vHeld vArmed vFinc vRelc vFar vWF vWR vLost] in *.
   rewrite LKr, L in *.
   assert (NF0 : nF w k0 = 0%nat).
   { destruct (Nat.eq_dec (nF w k0) 1) as [E1|E1]; [|lia]. destruct (A2 E1) as (_ & _ & A & _). congruence. }
@@ -225,17 +225,19 @@ Proof.
         with (if eRel c then 0%nat else 1%nat).
       2:{ destruct (eRel c); cbn [negb]; [symmetry; exact NR0|].
           rewrite occ_keys_snoc, Kc, N.eqb_refl. fold (nR w k). lia. }
-      constructor; unfold deadV, owesRV; cbn [vLook vNF vNR vClosed vDrop vHeld vArmed vFinc vRelc vFar vWF vWR];
+      constructor; unfold deadV, owesRV, owesFV; cbn [vLook vNF vNR vClosed vDrop vHeld vArmed vFinc vRelc vFar vWF vWR vLost];
         try lia; try discriminate; auto.
       * destruct (eRel c); lia.
       * destruct (eRel c) eqn:ER; [discriminate|]. intros _. repeat split; auto. apply (A7 c); auto.
       * intros WR. destruct (A12 WR) as [E1|(_ & [(c' & Hc & ER)|E1])]; [congruence| |lia].
         inversion Hc; subst c'. rewrite ER. right. split; [reflexivity|]. right. reflexivity.
+      * intros WF. destruct (A13 WF) as [E1|[(_ & [(c' & Hc & EF')|E1])|E1]]; [left; exact E1| |lia|right; right; exact E1].
+        inversion Hc; subst c'. congruence.
     + assert (V : mkView (lookup k r)
                   (occ k (keys (pendF (pl w))))
                   (occ k (keys (if negb (eRel c) then pendR (pl w) ++ [c] else pendR (pl w))))
                   false (mem k (dropped w)) (mem k (held w)) (mem k (rm k0 (armed w)))
-                  (finc k (tr w)) (relc k (tr w)) (finAfterRel k (epoch k (tr w))) (wantsF k (tr w)) (wantsR k (tr w))
+                  (finc k (tr w)) (relc k (tr w)) (finAfterRel k (epoch k (tr w))) (wantsF k (tr w)) (wantsR k (tr w)) (mem k (lost w))
                 = view w k).
       { unfold view. rewrite LKr, CL, mem_rm_other by exact NE. unfold nF, nR. f_equal.
         destruct (eRel c); cbn [negb]; [reflexivity|]. rewrite occ_keys_snoc, Kc.
@@ -248,7 +250,7 @@ Proof.
     cbn [setFin eKey]. rewrite Kc.
     keq k0 k.
     + rewrite mem_rm_same, Hd, Hh. rewrite occ_keys_snoc, Kc, N.eqb_refl. fold (nF w k) (nR w k). rewrite NF0, NR0.
-      constructor; unfold deadV, owesRV; cbn [vLook vNF vNR vClosed vDrop vHeld vArmed vFinc vRelc vFar vWF vWR];
+      constructor; unfold deadV, owesRV, owesFV; cbn [vLook vNF vNR vClosed vDrop vHeld vArmed vFinc vRelc vFar vWF vWR vLost];
         try lia; try discriminate; auto.
       * intros _. repeat split; auto. { apply (A3 c); auto. } intros c' Hc. inversion Hc. reflexivity.
       * intros c' Hc. inversion Hc. cbn. discriminate.
@@ -257,7 +259,7 @@ Proof.
     + assert (V : mkView (lookup k r)
                   (occ k (keys (pendF (pl w) ++ [c]))) (occ k (keys (pendR (pl w))))
                   false (mem k (dropped w)) (mem k (held w)) (mem k (rm k0 (armed w)))
-                  (finc k (tr w)) (relc k (tr w)) (finAfterRel k (epoch k (tr w))) (wantsF k (tr w)) (wantsR k (tr w))
+                  (finc k (tr w)) (relc k (tr w)) (finAfterRel k (epoch k (tr w))) (wantsF k (tr w)) (wantsR k (tr w)) (mem k (lost w))
                 = view w k).
       { unfold view. rewrite LKr, CL, mem_rm_other by exact NE. unfold nF, nR. f_equal.
         rewrite occ_keys_snoc, Kc. rewrite (proj2 (N.eqb_neq _ _) NE). lia. }
@@ -283,8 +285,8 @@ Proof.
   unfold wantsF, wantsR. rewrite lastFlags_emit_fin. fold (wantsF k (tr w)) (wantsR k (tr w)).
   rewrite regList_same, closed_same. fold (look w k) (nF w k) (nR w k). change (occ k (keys [])) with 0%nat.
   rewrite C.
-  destruct K as [A1 A2 A3 A4 A5 A6 A7 A8 A9 A10 A11 A12].
-  unfold deadV, owesRV in *. cbn [view vLook vNF vNR vClosed vDrop vHeld vArmed vFinc vRelc vFar vWF vWR] in *.
+  destruct K as [A1 A2 A3 A4 A5 A6 A7 A8 A9 A10 A11 A12 A13].
+  unfold deadV, owesRV, owesFV in *. cbn [view vLook vNF vNR vClosed vDrop vHeld vArmed vFinc vRelc vFar vWF vWR vLost] in *.
   rewrite C in *.
   assert (FAR : finAfterRel k (epoch k (emit Fin (keys (sort_desc (pendF (pl w)))) (tr w))) = false).
   { rewrite far_emit_fin; [exact A10|]. rewrite occ_keys_sort. fold (nF w k).
@@ -293,14 +295,15 @@ Proof.
   rewrite FAR.
   destruct (Nat.eq_dec (nF w k) 1) as [E1|E1].
   - destruct (A2 E1) as (D & Hh & Ha & F0 & Lc & R0). rewrite E1. cbn [Nat.eqb negb orb].
-    constructor; unfold deadV, owesRV; cbn [vLook vNF vNR vClosed vDrop vHeld vArmed vFinc vRelc vFar vWF vWR];
+    constructor; unfold deadV, owesRV, owesFV; cbn [vLook vNF vNR vClosed vDrop vHeld vArmed vFinc vRelc vFar vWF vWR vLost];
       try lia; try discriminate; auto.
     + intros c Hc EF. rewrite (Lc c Hc) in EF. discriminate.
   - assert (Z : nF w k = 0%nat) by lia. rewrite Z. cbn [Nat.eqb negb orb plus].
-    constructor; unfold deadV, owesRV; cbn [vLook vNF vNR vClosed vDrop vHeld vArmed vFinc vRelc vFar vWF vWR];
+    constructor; unfold deadV, owesRV, owesFV; cbn [vLook vNF vNR vClosed vDrop vHeld vArmed vFinc vRelc vFar vWF vWR vLost];
       try lia; try discriminate; auto.
     + intros E2. destruct (A6 E2) as ((? & ? & ? & ? & ?) & ?). repeat split; auto.
     + intros E2. destruct (A9 E2) as [?|((? & ? & ? & ? & ?) & ?)]; [discriminate|]. right. repeat split; auto.
+    + intros WF. destruct (A13 WF) as [?|[(_ & [?|?])|?]]; [left; assumption|right; left; split; auto|lia|right; right; assumption].
 Qed.
 
 Lemma step_runpr w w' : Inv w -> wstep w ERunPR = Some w' -> Inv w'.
@@ -312,17 +315,17 @@ Proof.
   unfold wantsF, wantsR. rewrite lastFlags_emit_rel. fold (wantsF k (tr w)) (wantsR k (tr w)).
   rewrite regList_same, closed_same. fold (look w k) (nF w k) (nR w k). change (occ k (keys [])) with 0%nat.
   rewrite C.
-  destruct K as [A1 A2 A3 A4 A5 A6 A7 A8 A9 A10 A11 A12].
-  unfold deadV, owesRV in *. cbn [view vLook vNF vNR vClosed vDrop vHeld vArmed vFinc vRelc vFar vWF vWR] in *.
+  destruct K as [A1 A2 A3 A4 A5 A6 A7 A8 A9 A10 A11 A12 A13].
+  unfold deadV, owesRV, owesFV in *. cbn [view vLook vNF vNR vClosed vDrop vHeld vArmed vFinc vRelc vFar vWF vWR vLost] in *.
   rewrite C in *.
   destruct (Nat.eq_dec (nR w k) 1) as [E1|E1].
   - destruct (A6 E1) as ((D & Hh & Ha & Lk & F0) & R0). rewrite E1, R0.
-    constructor; unfold deadV, owesRV; cbn [vLook vNF vNR vClosed vDrop vHeld vArmed vFinc vRelc vFar vWF vWR];
+    constructor; unfold deadV, owesRV, owesFV; cbn [vLook vNF vNR vClosed vDrop vHeld vArmed vFinc vRelc vFar vWF vWR vLost];
       try lia; try discriminate; auto.
     + intros c Hc. congruence.
     + intros _. right. repeat split; auto.
   - assert (Z : nR w k = 0%nat) by lia. rewrite Z. cbn [plus].
-    constructor; unfold deadV, owesRV; cbn [vLook vNF vNR vClosed vDrop vHeld vArmed vFinc vRelc vFar vWF vWR];
+    constructor; unfold deadV, owesRV, owesFV; cbn [vLook vNF vNR vClosed vDrop vHeld vArmed vFinc vRelc vFar vWF vWR vLost];
       try lia; try discriminate; auto.
     + intros E2. destruct (A2 E2) as (? & ? & ? & ? & ? & ?). repeat split; auto.
     + intros E2. destruct (A9 E2) as [?|(? & ?)]; [discriminate|]. right. split; auto.
@@ -347,11 +350,11 @@ Proof.
   rewrite !mem_keys_occ, finc_emit_fin, relc_emit_fin, occ_keys_sort.
   unfold wantsF, wantsR. rewrite lastFlags_emit_fin. fold (wantsF k (tr w)) (wantsR k (tr w)).
   rewrite lookup_map by apply finAll_key. rewrite occ_keys_filter by exact G'.
-  fold (nR w k). change (occ k (keys [])) with 0%nat.
+  fold (nR w k) (nF w k). change (occ k (keys [])) with 0%nat.
   assert (LK : look w k = lookup k r) by (unfold look, regList; rewrite Hr; reflexivity).
   assert (CL : closed (pl w) = false) by (unfold closed; rewrite Hr; reflexivity).
-  destruct K as [A1 A2 A3 A4 A5 A6 A7 A8 A9 A10 A11 A12].
-  unfold deadV, owesRV in *. cbn [view vLook vNF vNR vClosed vDrop vHeld vArmed vFinc vRelc vFar vWF vWR] in *.
+  destruct K as [A1 A2 A3 A4 A5 A6 A7 A8 A9 A10 A11 A12 A13].
+  unfold deadV, owesRV, owesFV in *. cbn [view vLook vNF vNR vClosed vDrop vHeld vArmed vFinc vRelc vFar vWF vWR vLost] in *.
   rewrite LK, CL in *.
   assert (FAR : finAfterRel k (epoch k (emit Fin (keys (sort_desc (filter notFin r))) (tr w))) = false).
   { rewrite far_emit_fin; [exact A10|]. rewrite occ_keys_sort, occ_keys_filter by exact G'.
@@ -363,17 +366,25 @@ Proof.
     { destruct (Nat.eq_dec (nR w k) 1) as [E1|E1]; [|lia]. destruct (A6 E1) as ((_ & _ & _ & ? & _) & _). discriminate. }
     assert (RC : relc k (tr w) <> 1%nat).
     { intros E1. destruct (A9 E1) as [?|((_ & _ & _ & ? & _) & _)]; discriminate. }
-    constructor; unfold deadV, owesRV; cbn [vLook vNF vNR vClosed vDrop vHeld vArmed vFinc vRelc vFar vWF vWR];
+    constructor; unfold deadV, owesRV, owesFV; cbn [vLook vNF vNR vClosed vDrop vHeld vArmed vFinc vRelc vFar vWF vWR vLost];
       try lia; try discriminate; auto.
     + intros c' Hc EF. inversion Hc; subst c'. rewrite finAll_fin in EF. discriminate.
     + unfold notFin. destruct (eFin c) eqn:EF; cbn [negb]; [lia|]. rewrite (A3 c eq_refl EF). lia.
     + intros WR. destruct (A12 WR) as [?|(_ & [(c' & Hc & ER)|?])]; [lia| |lia].
       inversion Hc; subst c'. right. split; [reflexivity|]. left. exists (finAll c). rewrite finAll_rel. auto.
+    + intros WF. destruct (A13 WF) as [E1|[(_ & [(c' & Hc & EF')|E1])|E1]].
+      * left. unfold notFin. destruct (eFin c) eqn:EF; cbn [negb]; [lia|]. rewrite (A3 c eq_refl EF) in E1. lia.
+      * inversion Hc; subst c'. left. unfold notFin. rewrite EF'. cbn [negb]. rewrite (A3 c eq_refl EF'). lia.
+      * right. right. rewrite E1. reflexivity.
+      * right. right. rewrite E1. apply orb_true_r.
   - cbn [Nat.eqb negb orb plus].
-    constructor; unfold deadV, owesRV; cbn [vLook vNF vNR vClosed vDrop vHeld vArmed vFinc vRelc vFar vWF vWR];
+    constructor; unfold deadV, owesRV, owesFV; cbn [vLook vNF vNR vClosed vDrop vHeld vArmed vFinc vRelc vFar vWF vWR vLost];
       try lia; try discriminate; auto.
     + intros E2. destruct (A6 E2) as ((? & ? & ? & ? & ?) & ?). repeat split; auto.
     + intros E2. destruct (A9 E2) as [?|((? & ? & ? & ? & ?) & ?)]; [discriminate|]. right. repeat split; auto.
+    + intros WF. destruct (A13 WF) as [E1|[(_ & [(c' & Hc & EF')|E1])|E1]]; [left; exact E1|discriminate| |].
+      * right. right. rewrite E1. reflexivity.
+      * right. right. rewrite E1. apply orb_true_r.
 Qed.
 
 Lemma step_pop w w' : Inv w -> wstep w EPop = Some w' -> Inv w'.
@@ -390,11 +401,12 @@ Proof.
   unfold wantsF, wantsR. rewrite lastFlags_emit_rel. fold (wantsF k (tr w)) (wantsR k (tr w)).
   rewrite occ_keys_filter by (rewrite keys_map_same by apply finAll_key; exact G').
   rewrite lookup_map by apply finAll_key.
-  fold (nR w k). change (occ k (keys [])) with 0%nat.
+  rewrite !mem_keys_occ, occ_keys_sort, (occ_keys_filter notFin k r G').
+  fold (nR w k) (nF w k). change (occ k (keys [])) with 0%nat.
   assert (LK : look w k = lookup k r) by (unfold look, regList; rewrite Hr; reflexivity).
   assert (CL : closed (pl w) = false) by (unfold closed; rewrite Hr; reflexivity).
-  destruct K as [A1 A2 A3 A4 A5 A6 A7 A8 A9 A10 A11 A12].
-  unfold deadV, owesRV in *. cbn [view vLook vNF vNR vClosed vDrop vHeld vArmed vFinc vRelc vFar vWF vWR] in *.
+  destruct K as [A1 A2 A3 A4 A5 A6 A7 A8 A9 A10 A11 A12 A13].
+  unfold deadV, owesRV, owesFV in *. cbn [view vLook vNF vNR vClosed vDrop vHeld vArmed vFinc vRelc vFar vWF vWR vLost] in *.
   rewrite LK, CL in *.
   destruct (lookup k r) as [c|] eqn:L; cbn [option_map].
   - assert (NR0 : nR w k = 0%nat).
@@ -402,17 +414,23 @@ Proof.
     assert (RC : relc k (tr w) <> 1%nat).
     { intros E1. destruct (A9 E1) as [?|((_ & _ & _ & ? & _) & _)]; discriminate. }
     rewrite NR0. unfold notRel. rewrite finAll_rel.
-    constructor; unfold deadV, owesRV; cbn [vLook vNF vNR vClosed vDrop vHeld vArmed vFinc vRelc vFar vWF vWR];
+    constructor; unfold deadV, owesRV, owesFV; cbn [vLook vNF vNR vClosed vDrop vHeld vArmed vFinc vRelc vFar vWF vWR vLost];
       try lia; try discriminate; auto.
     + destruct (eRel c) eqn:ER; cbn [negb]; [lia|]. rewrite (A7 c eq_refl ER). lia.
     + intros WR. left. destruct (A12 WR) as [?|(_ & [(c' & Hc & ER)|?])]; [lia| |lia].
       inversion Hc; subst c'. rewrite ER. cbn [negb]. rewrite (A7 c eq_refl ER). lia.
-  - constructor; unfold deadV, owesRV; cbn [vLook vNF vNR vClosed vDrop vHeld vArmed vFinc vRelc vFar vWF vWR];
+    + intros WF. destruct (A13 WF) as [E1|[(_ & [(c' & Hc & EF')|E1])|E1]]; [left; exact E1| | |].
+      * inversion Hc; subst c'. right. right. unfold notFin. rewrite EF'. cbn. apply orb_true_r.
+      * right. right. rewrite E1. reflexivity.
+      * right. right. rewrite E1. rewrite !orb_true_r. reflexivity.
+  - constructor; unfold deadV, owesRV, owesFV; cbn [vLook vNF vNR vClosed vDrop vHeld vArmed vFinc vRelc vFar vWF vWR vLost];
       try lia; try discriminate; auto.
-    + destruct (Nat.eq_dec (nR w k) 1) as [E1|E1]; [|lia]. destruct (A6 E1) as (_ & Z). lia.
     + intros WR. left. destruct (A12 WR) as [?|(_ & [(c' & Hc & ER)|?])]; [|discriminate|].
       * destruct (Nat.eq_dec (nR w k) 1) as [E1|E1]; [|lia]. destruct (A6 E1) as (_ & Z). lia.
       * destruct (A6 H) as (_ & Z). lia.
+    + intros WF. destruct (A13 WF) as [E1|[(_ & [(c' & Hc & EF')|E1])|E1]]; [left; exact E1|discriminate| |].
+      * right. right. rewrite E1. reflexivity.
+      * right. right. rewrite E1. rewrite !orb_true_r. reflexivity.
 Qed.
 
 Lemma step_inv w w' e : Inv w -> wstep w e = Some w' -> Inv w'.
